@@ -499,6 +499,76 @@ def _(nz, nx, nt, ns, nr, engine="numpy", dynamic=False, wavfilter=False):
                         dynamic=dynamic, wavfilter=wavfilter)
 
 
+
+@fam("BlendingGroup")
+def _(nt, nr, ns, group_size, half=False):
+    n_groups = ns // group_size
+    times = (np.arange(ns) * 1.5 % 4.0).reshape(group_size, n_groups)
+    cls = wp.BlendingHalf if half else wp.BlendingGroup
+    return cls(nt, nr, ns, 1.0, times, group_size=group_size, n_groups=n_groups)
+
+
+@fam("PhaseShift3D")
+def _(nt, nx, ny):
+    freq = np.fft.rfftfreq(nt, 0.5)
+    kx = np.fft.fftshift(np.fft.fftfreq(nx, 1.0))
+    ky = np.fft.fftshift(np.fft.fftfreq(ny, 1.0))
+    return wp.PhaseShift(2.0, 1.0, nt, freq, kx, ky)
+
+
+@fam("UpDownComposition2D")
+def _(nt, nr, scaling=1.0):
+    return wp.UpDownComposition2D(nt, nr, 0.5, 1.0, 1.0, 2.0, nffts=(nr, nt), critical=100.0, ntaper=2, scaling=scaling, dtype="complex128")
+
+
+@fam("PressureToVelocity")
+def _(nt, nr, topressure=False):
+    return wp.PressureToVelocity(nt, nr, 0.5, 1.0, 1.0, 2.0, nffts=(nr, nt), critical=100.0, ntaper=2, topressure=topressure)
+
+
+@fam("ChirpRadon3D")
+def _(nt, nhy, nhx):
+    return sp.ChirpRadon3D(np.arange(nt) * 1.0, np.arange(nhy) * 1.0 - nhy // 2, np.arange(nhx) * 1.0 - nhx // 2, (0.3, 0.2))
+
+
+@fam("Sliding3D")
+def _(savetaper=True, tapertype="hanning"):
+    nwin, nover, nop, nt = (4, 4), (2, 2), (2, 2), 2
+    dimsd = (6, 6, nt)
+    nwins = (2, 2)
+    Op = _leaf(("sl3", nt), nwin[0] * nwin[1] * nt, nop[0] * nop[1] * nt)
+    return sp.Sliding3D(Op, (nwins[0] * nop[0], nwins[1] * nop[1], nt), dimsd, nwin, nover, nop, tapertype=tapertype, savetaper=savetaper)
+
+
+@fam("Patch3D")
+def _(savetaper=True, tapertype="hanning"):
+    nwin, nover, nop = (4, 4, 4), (2, 2, 2), (2, 2, 2)
+    nwins = (2, 2, 2)
+    dimsd = tuple(w + (k - 1) * (w - o) for w, o, k in zip(nwin, nover, nwins))
+    dims = tuple(k * p for k, p in zip(nwins, nop))
+    Op = _leaf(("p3",), prod(nwin), prod(nop))
+    return sp.Patch3D(Op, dims, dimsd, nwin, nover, nop, tapertype=tapertype, savetaper=savetaper)
+
+
+@fam("DTCWT")
+def _(n, level=2, dims2=None):
+    return sp.DTCWT(dims=(n,) if dims2 is None else (n, dims2), level=level, axis=0 if dims2 else -1)
+
+
+@fam("PrestackWaveletModelling")
+def _(nt0, ntheta, nwav, linearization="akirich"):
+    m = (ivec(("pwm", nt0), nt0 * 3, 1, 5)).reshape(nt0, 3)
+    theta = np.linspace(0, 30, ntheta)
+    return pylops.avo.prestack.PrestackWaveletModelling(m, theta, nwav=nwav, wavc=nwav // 2, vsvp=0.5, linearization=linearization)
+
+
+@fam("NonStationaryConvolve3D")
+def _(dims, hshape, engine="numpy"):
+    ihx, ihy, ihz = (1, 3), (1, 3), (0, 2)
+    hs = ivec(("ns3", tuple(hshape)), 8 * prod(hshape)).reshape(2, 2, 2, *hshape)
+    return sp.NonStationaryConvolve3D(tup(dims), hs, ihx, ihy, ihz, engine=engine)
+
+
 COMPOUNDS = {
     "A**2": lambda A, B: A ** 2, "A**0": lambda A, B: A ** 0, "A**3": lambda A, B: A ** 3, "A*B": lambda A, B: A * B,
     "A+B": lambda A, B: A + B, "A-B": lambda A, B: A - B, "2*A": lambda A, B: 2 * A, "-A": lambda A, B: -A,
@@ -527,7 +597,7 @@ COMPLEX_INPUT_OK = {"AVOLinearModelling", "CausalIntegration", "Convolve1D", "Co
 
 # families that (on the unchanged tree) allocate their output with the INPUT's dtype and therefore truncate integer-dtype
 # inputs: known finding C02-int-input; integer-dtype probes are not generated for them
-INT_INPUT_BAD = {"NonStationaryConvolve1D", "Seislet", "ChirpRadon2D"}
+INT_INPUT_BAD = {"NonStationaryConvolve1D", "Seislet", "ChirpRadon2D", "ChirpRadon3D"}
 
 
 # ------------------------------------------------------------------ grids
@@ -808,6 +878,18 @@ def grid(tier, extra=True):
         add("Patch2D", nwin=[4, 4], nover=[2, 2], nwins=[2, 3], nop=[2, 2], tapertype="cosine", savetaper=st)
         add("Patch2D", nwin=[4, 4], nover=[2, 2], nwins=[3, 2], nop=[2, 2], tapertype="cosine", savetaper=st)
         add("Sliding1D", nwin=4, nover=2, nwins=3, nop=4, tapertype="hanning", savetaper=st, inner="identity")
+    # wave-propagation / seismic families with less common options
+    add("BlendingGroup", nt=4, nr=2, ns=4, group_size=2)
+    add("BlendingGroup", nt=4, nr=2, ns=4, group_size=2, half=True)
+    add("PhaseShift3D", nt=4, nx=3, ny=2)
+    add("ChirpRadon3D", nt=4, nhy=3, nhx=3)
+    for st in (True, False):
+        add("Sliding3D", savetaper=st)
+        add("Patch3D", savetaper=st, tapertype="cosine")
+    for lin in ("akirich", "fatti", "ps"):
+        add("PrestackWaveletModelling", nt0=5, ntheta=3, nwav=3, linearization=lin)
+    for engine in ("numpy", "numba"):
+        add("NonStationaryConvolve3D", dims=[4, 4, 3], hshape=[3, 3, 3], engine=engine)
     add("Seislet", nx=4, nt=4)
     add("Seislet", nx=8, nt=3, kind="linear")
     for ts in (True, False):
